@@ -24,7 +24,7 @@ from . import c02, c03
 ID = "C13"
 LEVEL = "fault_enumeration"
 TECHNIQUE = "exhaustive fault-position enumeration (every function call as the failing one) x exception types x execution modes, with all deviation-bounded task schedules explored for the executor modes"
-RULE = ("mapped pipelines of C03's family and G-DAG pipelines N<=3 (thorough: decorated) x every (function, call index) as the failing invocation x "
+RULE = ("mapped pipelines of C03's family and G-DAG pipelines N<=2 with all decorations (thorough: N=3), including histories of two failures on one pipeline object, x every (function, call index) as the failing invocation x "
         "exception {ValueError('boom', k), KeyError(), custom picklable class with an attribute} x {pipeline(), run, func(), sequential map, deferred executor: every "
         "schedule with <= B deviations, sync and async, real thread pool, real process pool (thorough)}. non-trivial = distinct (pipeline, failing function, call index, "
         "exception type, mode) where the failing call is not the first call of the run")
@@ -345,7 +345,7 @@ def plan(tier, seed):
                     units.append((f"map-deferred-executor-deviations<={bound}", ("dfs", {"pipe": pipe, "mode": mode, "storage": storage, "exec": ex}, {"func": fname, "call": k, "exc": "ValueError"}, bound)))
             for exc in ("KeyError", "Custom"):
                 units.append((f"map-deferred-executor-deviations<={bound}", ("dfs", {"pipe": pipe, "mode": "deferred-sync", "storage": "dict", "exec": "one"}, {"func": fname, "call": k, "exc": exc}, 0)))
-    stages = ["N1", "N2", "N3"] if tier == "quick" else ["N1", "N2", "N2-decorated", "N3"]
+    stages = ["N1", "N2", "N2-decorated"] if tier == "quick" else ["N1", "N2", "N2-decorated", "N3"]
     for st in stages:
         n = sum(1 for _ in c02.specs_for(st))
         nch = max(1, n // 40)
